@@ -11,7 +11,9 @@ import vlib
 
 TRUSTED = [
     "Coq 8.16.1 kernel + vm_compute (no native_compute)",
-    "harness/translate.py + harness/gen.py (Python-ast translator, validated by interval sample goals on every run)",
+    "harness/translate.py + harness/gen.py (Python-ast translator, validated by interval sample goals on every run; when it "
+    "does not carry the current source the committed golden text coq_golden/Gen_*.v is the model and the same sample "
+    "goals are the tie, see coverage.tie)",
     "Interval tactic (sample goals only)",
     "real-number model: floating-point evaluation differs by rounding (bounded per sample goal)",
     "numba compiles the same arithmetic as the Python source of the compiled variants (compared numerically per sample)",
@@ -67,7 +69,36 @@ def _impl_table():
         tbl[f"drop_surface_{d}"] = surf
         tbl[f"drop_from_volume_{d}"] = fromvol
     tbl["drop_curvature"] = lambda x: float(SphericalDroplet(np.zeros(2), x).interface_curvature)
+
+    # bounding box (elementwise in the position): lower corner of component 0, upper corner of component 1
+    def bbox_lo(x):
+        return float(SphericalDroplet(np.array(BBOX_POS), x).bbox.pos[0])
+
+    def bbox_hi(x):
+        bb = SphericalDroplet(np.array(BBOX_POS), x).bbox
+        return float(bb.pos[1] + bb.size[1])
+
+    tbl["drop_bbox_lo"] = bbox_lo
+    tbl["drop_bbox_hi"] = bbox_hi
     return tbl
+
+
+BBOX_POS = (0.75, -3.25)
+# Coq term of a sample: `<definition> <argument>` unless listed here
+SAMPLE_EXPR = {
+    "drop_bbox_lo": lambda x: f"drop_bbox_lo {vlib.rlit(BBOX_POS[0])} {vlib.rlit(x)}",
+    "drop_bbox_hi": lambda x: f"drop_bbox_hi {vlib.rlit(BBOX_POS[1])} {vlib.rlit(x)}",
+}
+
+
+def _uncovered_definitions(tbl) -> list[str]:
+    """Definitions of the real-valued Gen files in the build directory (fresh or golden) that no sample goal
+    evaluates: the sample goals are the tie of every one of them, so this list has to be empty."""
+    import re
+    names = []
+    for g in ("Gen_spherical", "Gen_droplet_basic"):
+        names += re.findall(r"^Definition\s+([\w']+)", (vlib.COQ_BUILD / "Gen" / f"{g}.v").read_text(), flags=re.M)
+    return [n for n in names if n not in tbl]
 
 
 def _inputs(rng: random.Random, n: int):
@@ -151,34 +182,62 @@ def oracle(rng: random.Random, n: int):
     return fails
 
 
+GENS = ["Gen_spherical", "Gen_spherical_index", "Gen_droplet_basic"]
+
+
 def check(ctx: vlib.Ctx) -> int:
     rng = random.Random(ctx.seed)
-    ok = vlib.prove(ctx, ["Proofs/C12.vo", "Model/Samples.vo"],
-                    gens=["Gen_spherical", "Gen_spherical_index", "Gen_droplet_basic"])
-    ctx.tie.append("translator (Gen_spherical, Gen_spherical_index, Gen_droplet_basic regenerated from /repo)")
+    # theorems over the text regenerated from the current source; over the golden text when the translator does not
+    # carry the current source or the fresh text no longer fits the proof scripts (DESIGN.md 2.2, Fallback)
+    ok, fresh = vlib.prove_with_fallback(ctx, ["Proofs/C12.vo", "Model/Samples.vo"], gens=GENS)
+    which = "regenerated" if fresh else "golden"
+    ctx.tie.append(f"interval sample goals + index cases evaluated inside Coq: the {which} Gen_spherical / "
+                   "Gen_spherical_index / Gen_droplet_basic definitions against the values computed by the implementation")
     tbl = _impl_table()
     nin = ctx.scale(3, 16)
-    # --- translator validation by interval sample goals
-    gen_ok = not any("translator failed closed" in n for n in ctx.notes)
-    if gen_ok and ok:
+    model_diff = []  # inputs on which the (golden or regenerated) model and the implementation disagree
+    # --- validation of the model by interval sample goals.  The goals name the Coq definitions (`rfv_scalar_3 x`),
+    # so they evaluate whatever text build/coq/Gen holds (fresh or golden) and need nothing from the translator's
+    # Python side; the right-hand sides are the implementation's values.
+    if ok:
+        missing = _uncovered_definitions(tbl)
+        if missing:
+            ctx.broken.append(f"generated definitions without a sample goal: {missing}")
         goals = []
         for name, f in sorted(tbl.items()):
             for x in _inputs(rng, nin):
-                y = f(x)
-                goals.append((f"{name}({x!r})", f"{name} {vlib.rlit(x)}", y, 1e-13 * abs(y) + 1e-300))
                 ctx.case([name, x])
                 ctx.count("function", name.rsplit("_", 1)[0])
                 ctx.count("log2_magnitude_bucket", 10 * round(math.log2(x) / 10))
-        ctx.sample({"goal": f"Rabs ({goals[0][1]} - {vlib.rlit(goals[0][2])}) <= tol", "impl_value": goals[0][2]})
+                try:
+                    y = f(x)
+                except Exception as e:  # noqa
+                    y = f"raised {type(e).__name__}"
+                if not isinstance(y, float) or not math.isfinite(y):
+                    # non-finite values never enter a Coq literal: the model is finite on finite positive arguments
+                    ctx.broken.append(f"sample {name}({x!r}): the implementation returns {y!r}, the model a finite value")
+                    model_diff.append({"function": name, "arg": x, "implementation": repr(y)})
+                    continue
+                expr = SAMPLE_EXPR[name](x) if name in SAMPLE_EXPR else f"{name} {vlib.rlit(x)}"
+                goals.append((f"{name}({x!r})", expr, y, 1e-13 * abs(y) + 1e-300, name, x))
+        if goals:
+            ctx.sample({"goal": f"Rabs ({goals[0][1]} - {vlib.rlit(goals[0][2])}) <= tol", "impl_value": goals[0][2],
+                        "model_text": which})
         req = "From Coq Require Import Reals.\nFrom PD Require Import Model.Num Gen.Gen_spherical Gen.Gen_droplet_basic."
         # shard the goals so that they run in parallel
         from concurrent.futures import ThreadPoolExecutor
         shards = [goals[i::8] for i in range(8)]
         unfold = sorted(tbl.keys())
         with ThreadPoolExecutor(8) as ex:
-            list(ex.map(lambda a: vlib.sample_goals(ctx, f"c12_{a[0]}", req, a[1], unfold), enumerate(shards)))
+            failed = list(ex.map(lambda a: vlib.sample_goals(ctx, f"c12_{a[0]}", req, [g[:4] for g in a[1]], unfold),
+                                 enumerate(shards)))
+        by_label = {g[0]: g for g in goals}
+        for lst in failed:
+            for (label, _expr, val) in lst:
+                g = by_label[label]
+                model_diff.append({"function": g[4], "arg": g[5], "implementation": val})
     # --- Z-valued index functions: model vs implementation inside Coq
-    if gen_ok and ok:
+    if ok:
         from droplets.tools import spherical as sp
         K = ctx.scale(1500, 20000)
         cases = []
@@ -198,11 +257,18 @@ def check(ctx: vlib.Ctx) -> int:
         bad = vlib.run_cases(ctx, "index", header, cases, "agree", shard=2500)
         if bad:
             ctx.broken.append(f"index functions: model and implementation differ on k in {bad[:5]}")
+            model_diff.append({"function": "spherical_index_lm/_k/_count/_count_optimal", "k": bad[0]})
         ctx.count("index_k_range", f"0..{K - 1}", K)
     # --- property oracle over the implementation: always run a small sweep (also the search when broken)
     fails = oracle(rng, ctx.scale(8, 40) if not ctx.broken else 60)
     for f in fails[:3]:
         ctx.violations.append({"what": f["what"], "input": f, "found": True, "broken": ctx.broken[:3]})
+    if not fresh and not fails:
+        # the theorems were checked over the golden model: an input on which the implementation leaves that model
+        # is the failing input (the implementation is not the function the theorems are about)
+        for m in model_diff[:3]:
+            ctx.violations.append({"what": "implementation differs from the golden model of " + m["function"],
+                                   "input": m, "found": True, "broken": ctx.broken[:3]})
     return vlib.finish(ctx, "", TRUSTED, ASSUME, RULE)
 
 
